@@ -30,7 +30,7 @@ func init() {
 		ID: "C04", Title: "Distributed lock: hand-off, cancellation and shutdown leave no residue",
 		Pkgs:      lockPkgs,
 		Run:       runC04,
-		Technique: "static analysis: must-pass-through path queries with exit classification (token and flag returned on every failure exit), guard dominance, origin analysis of the retry loop, plus the notify/registration rules of the in-memory WaitForVersionChange the hand-off relies on (go/ssa)",
+		Technique: "static analysis: must-pass-through path queries with exit classification (token and flag returned on every failure exit), guard dominance, origin analysis of the retry loop, path enumeration with a per-path boolean valuation (shutdown re-check after every storage wait), plus the notify/registration/registration-balance rules of the in-memory WaitForVersionChange the hand-off relies on (go/ssa)",
 		Explanation: "R1: after the local token was taken every failure exit of TryLock/LockWithCtx/Lock gives the token back and resets the held flag. R2: every normal exit of Unlock passes Storage.Delete(key) and a token send. " +
 			"R3: on the ErrExist edge the loop waits with WaitForVersionChange(ctx,key,v), v the version returned by the failed Create, and goes round again on a fresh ctx.Err(). " +
 			"R4: the token helpers return nil only on the 'still open' edge of a shutdown test made after taking the token. R5: the local wait has a ctx.Done() case returning ctx.Err(); Shutdown closes the done channel. " +
